@@ -172,6 +172,8 @@ def parse_vspec(path):
                 fnspec(unit, arg or None)["external_body"] = True
             elif d == "hoist":
                 unit["hoist"] = True
+            elif d == "fragments_only":
+                unit["fragments_only"] = True
             elif d == "outline":
                 # @@outline <helper fn header>   e.g.  @@outline fn vx_o_x(response: &Response) -> Vec<&response::App>
                 # optional [fn=origin] prefix selects the fn of an impl unit
@@ -305,7 +307,7 @@ def run_vx(group, vac_names=None):
                "self_ty": u.get("self_ty"), "trait": u.get("trait"), "method": u.get("method"),
                "fns": u["fns"], "derive_keep": u.get("derive_keep"), "only_methods": u.get("only_methods"),
                "pre_attrs": u.get("pre_attrs", []), "drop_fields": u.get("drop_fields", []),
-               "hoist": bool(u.get("hoist")), "vac": bool(vac_names and u["name"] in vac_names),
+               "hoist": bool(u.get("hoist")), "fragments_only": bool(u.get("fragments_only")), "vac": bool(vac_names and u["name"] in vac_names),
                "known_closures": known_closures(group["name"], u["name"])}
         units.append(req)
     job = {"repo": REPO, "units": units, "renames": group["renames"], "macro_map": group["macro_map"],
